@@ -127,6 +127,20 @@ func ruleKeyReadSet(r *Run) {
 		}
 	}
 	r.AtLeast(rule, "AST fields read by the planner", n, 15)
+	// the other per-request input of the planner is the request itself (text, variables,
+	// operation name): whatever the planner reads of it decides the plan, so the key has to
+	// read it too (a plan that depends on the VALUES of variables — @skip/@include decided at
+	// plan time — cannot be shared between requests with other values)
+	for _, k := range keys {
+		if !strings.HasPrefix(k, "requests.Request.") {
+			continue
+		}
+		if hr[k] {
+			r.OK(rule, fnName(hash), "planner reads "+k, r.P.pos(hash.Pos()), "also read when the cache key is computed")
+		} else {
+			r.Bad(rule, fnName(hash), "planner reads "+k, r.P.pos(hash.Pos()), "the planner's result depends on "+k+" of the client's request, but the cache key is computed without reading it: two requests that differ only there share one cached plan")
+		}
+	}
 }
 
 // variablePositions: AST positions through which a variable reference can be reached.
